@@ -2,9 +2,25 @@
 from props.hist_base import HistPlugin
 
 
+import hist
+
+
 class Plugin(HistPlugin):
     id = 'C13'
     extra_import = 'HistProps HistPropCheck'
     check_fn = 'c13_check'
+    weights = {'insert_one': 4, 'update': 12, 'replace': 6, 'fam': 3, 'bulk': 2, 'delete': 1,
+               'create_index': 1}
+    rule = ('(state, filter, update|replacement) triples with upsert=True in most update/replace calls, '
+            'filters mixing equalities, $eq, dotted paths and operator conditions, _id given in the '
+            'filter, in the update or nowhere. Non-trivial = an upsert that inserts; distinct by '
+            'canonical JSON.')
     FINDING_BITS = 0
-    UNDECIDED_BITS = 1 | 2 | 4 | 8
+    UNDECIDED_BITS = 1 | 2 | 4 | 16
+
+    def gen_case(self, rng, i, tier):
+        hist.UPSERT_RATE[0] = 0.8
+        try:
+            return HistPlugin.gen_case(self, rng, i, tier)
+        finally:
+            hist.UPSERT_RATE[0] = 0.25
